@@ -9,9 +9,16 @@ postconditions on the real functions:
   2^(d-1)-1, 2^(d-1), +-1, 0, huge) and padding removal for all small sizes;
 * stream level: small HQ / LD / fragmented streams with hand-chosen coefficients (including the values that
   synthesise exactly +-2^(d-1)) are decoded with the real parse_stream; every callback call is checked for
-  count, order, picture number, component sizes and sample range."""
+  count, order, picture number, component sizes and sample range;
+* stream-level DOMAIN check (check_domain, second half of this file): streams written by an independent writer of
+  the standard's syntax over a systematic domain (every dwt_depth x dwt_depth_ho incl. horizontal-only transforms,
+  odd / unaligned sizes, 4:4:4 / 4:2:2 / 4:2:0, frames / fields, LD / HQ, pictures / fragments, several sequences,
+  extreme / zero / dangling payloads) are decoded by the real init_io + parse_stream and every clause of the
+  statement is judged on every callback call against an oracle written from (11.6.2) / (11.6.3)."""
 import copy
+import multiprocessing
 import random
+import time
 from io import BytesIO
 
 
@@ -209,4 +216,754 @@ def check(rep, tier, seed):
                     "fields, plus the validator corpus), %d pictures checked" % (n_streams, n_pics), n_streams, False, distinct=n_pics)
 
 
-REGISTER = {"C09": dict(extra=[check])}
+# =====================================================================================================================
+# Stream-level DOMAIN check: real streams -> real decoder -> every clause of the statement on every callback call
+# =====================================================================================================================
+#
+# The streams are written by the small VC-2 stream WRITER below, which follows SMPTE ST 2042-1 clause by clause and
+# uses nothing of vc2_conformance (not the serialiser, not the encoder, not slice_sizes): a change of the code under
+# check cannot make the inputs "self-consistently wrong".  The ORACLE is the statement of C09 read with (11.6.2)
+# picture_dimensions and (11.6.3) video_depth:
+#
+#   S  size      Y is luma_width x luma_height, C1 and C2 are color_diff_width x color_diff_height where
+#                luma = frame_width x frame_height, colour difference = luma with the width halved for 4:2:2 and 4:2:0
+#                and the height halved for 4:2:0, and both heights halved again when pictures are fields;
+#                each component is a list of `height` lists of exactly `width` entries
+#   R  range     every entry is a Python int v with 0 <= v <= 2**depth - 1, depth = intlog2(excursion + 1) of the
+#                luma excursion for Y and of the colour-difference excursion for C1, C2 (custom or preset signal range)
+#   N  number    picture["pic_num"] == the 32-bit picture number written into the picture header / fragment headers
+#   O  one each  the k-th callback call belongs to the k-th picture of the stream (picture data unit or fragmented picture)
+#                and does not happen before the payload of that picture's LAST data unit has begun to be consumed (position
+#                of the file object; read-ahead can only make the position larger, so this bound is safe); at the end of the
+#                stream there were exactly as many calls as pictures.  Sequence headers (also repeated), padding, auxiliary
+#                data, the first fragment (transform parameters only) and incomplete fragment sets never produce a call.
+#
+# A stream the validator rejects (ConformanceError) is outside the domain of the statement: counted per family, and
+# if more than a third of a family is rejected the check stops with a checker error (never a pass).  Any other
+# exception of the decoder on a stream is reported as a violation (a picture data unit without its output).
+
+WORKERS = 6
+_CHUNK = 24
+
+_PARSE_CODES = {"seq": 0x00, "eos": 0x10, "aux": 0x20, "pad": 0x30, ("ld", "pic"): 0xC8, ("hq", "pic"): 0xE8, ("ld", "frag"): 0xCC, ("hq", "frag"): 0xEC}
+_PROFILES = {"ld": 0, "hq": 3}
+# (11.4.9 / table 11.5) preset signal ranges: luma offset, luma excursion, colour difference offset, excursion
+_PRESET_SIGNAL_RANGES = {1: (0, 255, 128, 255), 2: (16, 219, 128, 224), 3: (64, 876, 512, 896), 4: (256, 3504, 2048, 3584)}
+# (annex B) the base video formats used here: frame width, height, colour difference format, preset signal range
+_BASE_FORMATS = {0: (640, 480, 2, 1), 1: (176, 120, 2, 1), 2: (176, 144, 2, 1)}
+
+D_WIDTHS = {"quick": [1, 2, 3, 4, 5, 6, 7, 8, 9, 11, 13, 20], "thorough": [1, 2, 3, 4, 5, 6, 7, 8, 9, 10, 11, 12, 13, 15, 16, 17, 20, 24]}
+D_HEIGHTS = {"quick": [1, 2, 3, 4, 5], "thorough": [1, 2, 3, 4, 5, 6, 7]}
+D_SHAPES = {"quick": [(d, dh) for d in (0, 1, 2) for dh in (0, 1, 2, 3)], "thorough": [(d, dh) for d in (0, 1, 2, 3) for dh in (0, 1, 2, 3, 4)]}
+D_GRIDS = [(1, 1), (2, 1), (3, 2), (1, 2), (7, 5), (2, 2), (4, 3), (5, 1), (1, 1), (2, 1), (3, 2), (16, 9)]  # (7,5), (16,9): more slices than coefficients
+D_ROUNDS = {"quick": 1, "thorough": 1}  # a further round draws sampling format, coding mode and slice grid instead of rotating them
+D_FAMILIES = [("hq", "pic"), ("ld", "pic"), ("hq", "frag"), ("ld", "frag")]
+
+
+# --------------------------------------------------------------------------------------------------------------------
+# the standard, written out: codes (annex A), dimensions (11.6.2, 11.6.3, 13.2.3, 13.5.6.2), syntax (10 - 14)
+# --------------------------------------------------------------------------------------------------------------------
+def _uint_code(v):
+    """(A.4.3) interleaved exp-Golomb: every bit of v + 1 below its leading one is preceded by a 0, then a 1 ends the code."""
+    return "".join("0" + c for c in bin(v + 1)[3:]) + "1"
+
+
+def _sint_code(v):
+    """(A.4.4) magnitude, then a sign bit (1 = negative) unless the value is 0."""
+    return _uint_code(-v) + "1" if v < 0 else (_uint_code(v) + "0" if v else "1")
+
+
+class _W(object):
+    """Bit string writer (most significant bit first)."""
+
+    def __init__(self):
+        self.s = []
+
+    def bit(self, b):
+        self.s.append("1" if b else "0")
+
+    def nbits(self, n, v):
+        if n:
+            assert 0 <= v < (1 << n)
+            self.s.append(format(v, "0%db" % n))
+
+    def uint(self, v):
+        self.s.append(_uint_code(v))
+
+    def raw(self, bits):
+        self.s.append(bits)
+
+    def align(self):
+        n = sum(map(len, self.s)) % 8
+        if n:
+            self.s.append("0" * (8 - n))
+
+    def data(self, b):
+        self.align()
+        if b:
+            self.s.append(format(int.from_bytes(b, "big"), "0%db" % (8 * len(b))))
+
+    def getvalue(self):
+        self.align()
+        bits = "".join(self.s)
+        return int(bits, 2).to_bytes(len(bits) // 8, "big") if bits else b""
+
+
+def _intlog2(n):
+    """(5.5.3) ceil(log2(n))."""
+    return (n - 1).bit_length()
+
+
+def _picture_dimensions(fw, fh, cdf, pcm):
+    """(11.6.2)"""
+    lw, lh = fw, fh
+    cw, ch = lw, lh
+    if cdf in (1, 2):
+        cw //= 2
+    if cdf == 2:
+        ch //= 2
+    if pcm == 1:
+        lh //= 2
+        ch //= 2
+    return lw, lh, cw, ch
+
+
+def _levels(d, dh):
+    """(13.1.1) the subbands in stream order: (level, number of orientations)."""
+    return [(0, 1)] + [(lv, 1) for lv in range(1, dh + 1)] + [(lv, 3) for lv in range(dh + 1, dh + d + 1)]
+
+
+def _subband_size(w, h, d, dh, level):
+    """(13.2.3) subband_width / subband_height of a component of w x h samples."""
+    sw = 1 << (d + dh)
+    pw = sw * -(-w // sw)
+    sh = 1 << d
+    ph = sh * -(-h // sh)
+    bw = pw // sw if level == 0 else pw // (1 << (d + dh - level + 1))
+    bh = ph // sh if level <= dh else ph // (1 << (d + dh - level + 1))
+    return bw, bh
+
+
+def _slice_coefficients(w, h, d, dh, sx, sy, nx, ny):
+    """(13.5.6.2) number of coefficients of one component that lie in slice (sx, sy)."""
+    n = 0
+    for level, norient in _levels(d, dh):
+        bw, bh = _subband_size(w, h, d, dh, level)
+        n += norient * ((bw * (sx + 1)) // nx - (bw * sx) // nx) * ((bh * (sy + 1)) // ny - (bh * sy) // ny)
+    return n
+
+
+def _sequence_header_bytes(q, major):
+    """(11.1) parse_parameters, base_video_format, source_parameters, picture_coding_mode."""
+    w = _W()
+    w.uint(major)
+    w.uint(0)
+    w.uint(_PROFILES[q["profile"]])
+    w.uint(0)  # level: unconstrained
+    w.uint(q["base"])
+    bw, bh, bcdf, bsr = _BASE_FORMATS[q["base"]]
+    hf = q["hdr"]
+    # frame_size (11.4.3)
+    custom = (q["fw"], q["fh"]) != (bw, bh)
+    w.bit(custom)
+    if custom:
+        w.uint(q["fw"])
+        w.uint(q["fh"])
+    # color_diff_sampling_format (11.4.4)
+    custom = q["cdf"] != bcdf or hf["redundant_cdf"]
+    w.bit(custom)
+    if custom:
+        w.uint(q["cdf"])
+    # scan_format (11.4.5)
+    w.bit(hf["scan"] is not None)
+    if hf["scan"] is not None:
+        w.uint(hf["scan"])
+    # frame_rate (11.4.6)
+    w.bit(hf["frame_rate"] is not None)
+    if hf["frame_rate"] is not None:
+        w.uint(hf["frame_rate"][0])
+        if hf["frame_rate"][0] == 0:
+            w.uint(hf["frame_rate"][1])
+            w.uint(hf["frame_rate"][2])
+    # pixel_aspect_ratio (11.4.7)
+    w.bit(hf["par"] is not None)
+    if hf["par"] is not None:
+        w.uint(hf["par"][0])
+        if hf["par"][0] == 0:
+            w.uint(hf["par"][1])
+            w.uint(hf["par"][2])
+    # clean_area (11.4.8): must lie inside the frame
+    custom = (q["fw"], q["fh"]) != (bw, bh) or hf["clean"] is not None
+    w.bit(custom)
+    if custom:
+        cl = (q["fw"], q["fh"], 0, 0)
+        if hf["clean"] == "inner":  # a smaller clean area changes nothing about the decoded picture
+            cl = (max(1, q["fw"] - 2), max(1, q["fh"] - 1), min(1, q["fw"] - max(1, q["fw"] - 2)), q["fh"] - max(1, q["fh"] - 1))
+        for v in cl:
+            w.uint(v)
+    # signal_range (11.4.9)
+    sr = q["sr"]
+    custom = not (isinstance(sr, int) and sr == bsr and not hf["redundant_sr"])
+    w.bit(custom)
+    if custom:
+        if isinstance(sr, int):
+            w.uint(sr)
+        else:
+            w.uint(0)
+            for v in sr:
+                w.uint(v)
+    # color_spec (11.4.10)
+    cs = hf["color_spec"]
+    w.bit(cs is not None)
+    if cs is not None:
+        w.uint(cs[0])
+        if cs[0] == 0:
+            for idx in cs[1:]:
+                w.bit(idx is not None)
+                if idx is not None:
+                    w.uint(idx)
+    w.uint(q["pcm"])
+    return w.getvalue()
+
+
+def _transform_parameters(w, t, profile, major):
+    """(12.4.1) transform_parameters incl. (12.4.4.1) extended_transform_parameters, (12.4.5.2), (12.4.5.3)."""
+    w.uint(t["wi"])
+    w.uint(t["d"])
+    if major >= 3:
+        flag = t["wih"] != t["wi"] or t["redundant_flags"]
+        w.bit(flag)
+        if flag:
+            w.uint(t["wih"])
+        flag = t["dh"] != 0 or t["redundant_flags"]
+        w.bit(flag)
+        if flag:
+            w.uint(t["dh"])
+    w.uint(t["sx"])
+    w.uint(t["sy"])
+    if profile == "ld":
+        w.uint(t["sb_num"])
+        w.uint(t["sb_den"])
+    else:
+        w.uint(t["prefix"])
+        w.uint(t["scaler"])
+    w.bit(t["qm"] is not None)
+    if t["qm"] is not None:
+        for v in t["qm"]:
+            w.uint(v)
+
+
+def _coefficients(rng, n, mode, depth):
+    half = 1 << (depth - 1)
+    if mode == "zero" or n == 0:
+        return [0] * n
+    if mode == "dc":
+        return [rng.choice((half, -half, half - 1, -half - 1, 3 * half, -3 * half))] + [0] * (n - 1)
+    if mode == "one-over":  # everything in range except one value exactly one above the top (meaningful without a transform)
+        c = [rng.randint(-half, half - 1) for _ in range(n)]
+        c[rng.randrange(n)] = rng.choice((half, half, -half - 1))
+        return c
+    if mode == "boundary":
+        pool = (half, -half, half - 1, -half - 1, half + 1, 0, 0, 1, -1)
+    elif mode == "extreme":
+        pool = (1 << 20, -(1 << 20), 8 * half, -8 * half, 0, 1, -1, half, -half, 0, 3, (1 << 31) - 1, -(1 << 31))
+    elif mode == "noise":
+        return [rng.randint(-2 * half, 2 * half) for _ in range(n)]
+    else:  # small
+        pool = (0, 0, 0, 1, -1, 2, -3)
+    return [rng.choice(pool) for _ in range(n)]
+
+
+def _fill(rng, n):
+    k = rng.randrange(3)
+    return "0" * n if k == 0 else ("1" * n if k == 1 else "".join(rng.choice("01") for _ in range(n)))
+
+
+def _hq_component_bits(rng, t, n, mode, depth):
+    return "".join(map(_sint_code, _coefficients(rng, n, mode, depth)))
+
+
+def _slices(rng, q, t, dims, depths):
+    """The slices of one picture in raster order, as byte strings ((13.5.3.1) ld_slice, (13.5.4) hq_slice).  Fills in
+    the size fields of t (slice_size_scaler or slice_bytes) so that the chosen payloads fit (or are deliberately cut:
+    a bounded block that ends early reads as zeros, (A.4.2))."""
+    lw, lh, cw, ch = dims
+    nx, ny = t["sx"], t["sy"]
+    counts = [[(_slice_coefficients(lw, lh, t["d"], t["dh"], sx, sy, nx, ny), _slice_coefficients(cw, ch, t["d"], t["dh"], sx, sy, nx, ny)) for sx in range(nx)] for sy in range(ny)]
+    modes = t["modes"]
+    out = []
+    if q["profile"] == "hq":
+        comps = []
+        for sy in range(ny):
+            for sx in range(nx):
+                ny_, nc_ = counts[sy][sx]
+                comps.append([_hq_component_bits(rng, t, ny_, modes[0], depths[0]), _hq_component_bits(rng, t, nc_, modes[1], depths[1]), _hq_component_bits(rng, t, nc_, modes[2], depths[1])])
+        need = max([1] + [-(-len(b) // 8) for c in comps for b in c])
+        smallest = -(-need // 255)
+        t["scaler"] = max(1, smallest if t["cut"] != "scaler" else rng.randint(1, max(1, smallest)))
+        if t["cut"] is None and rng.random() < 0.3:
+            t["scaler"] += rng.randrange(3)
+        for c in comps:
+            w = _W()
+            w.data(bytes(rng.randrange(256) for _ in range(t["prefix"])))
+            w.nbits(8, rng.choice(t["qindex"]))
+            for b in c:
+                units = -(-(-(-len(b) // 8)) // t["scaler"])
+                if t["cut"] == "short":
+                    units = rng.randint(0, units)
+                elif rng.random() < 0.3:
+                    units += rng.randrange(3)
+                units = min(units, 255)
+                w.nbits(8, units)
+                nb = 8 * units * t["scaler"]
+                w.raw((b + _fill(rng, max(0, nb - len(b))))[:nb])
+            out.append(w.getvalue())
+        return out
+    # low delay: slice_bytes(sx, sy) from the fraction slice_bytes_numerator / slice_bytes_denominator (13.5.3.2)
+    ns = nx * ny
+    payload = []
+    for sy in range(ny):
+        for sx in range(nx):
+            ny_, nc_ = counts[sy][sx]
+            yb = "".join(map(_sint_code, _coefficients(rng, ny_, modes[0], depths[0])))
+            c1 = _coefficients(rng, nc_, modes[1], depths[1])
+            c2 = _coefficients(rng, nc_, modes[2], depths[1])
+            cb = "".join(_sint_code(a) + _sint_code(b) for a, b in zip(c1, c2))
+            payload.append((yb, cb))
+    need_bits = max(len(yb) + len(cb) for yb, cb in payload) + 7 + 24
+    per = -(-need_bits // 8)
+    if t["cut"] == "short":
+        per = rng.randint(1, per)
+    elif t["cut"] == "scaler":
+        per = 1
+    t["sb_den"] = rng.choice((1, ns, ns, 3, 7))
+    t["sb_num"] = per * t["sb_den"] + (rng.randrange(t["sb_den"]) if t["cut"] != "scaler" else 0)
+    for i, (yb, cb) in enumerate(payload):
+        sb = ((i + 1) * t["sb_num"]) // t["sb_den"] - (i * t["sb_num"]) // t["sb_den"]
+        w = _W()
+        w.nbits(7, rng.choice(t["qindex"]) & 127)
+        length_bits = _intlog2(8 * sb - 7)
+        left = 8 * sb - 7 - length_bits
+        ylen = min(len(yb), left)
+        if len(yb) + len(cb) < left and rng.random() < 0.5:
+            ylen += rng.randrange(left - len(yb) - len(cb) + 1)  # slack behind the luma coefficients
+        elif t["cut"] == "short" and rng.random() < 0.5:
+            ylen = rng.randint(0, ylen)
+        w.nbits(length_bits, ylen)
+        w.raw((yb + _fill(rng, max(0, ylen - len(yb))))[:ylen])
+        w.raw((cb + _fill(rng, max(0, left - ylen - len(cb))))[:left - ylen])
+        b = w.getvalue()
+        assert len(b) == sb, (len(b), sb)
+        out.append(b)
+    return out
+
+
+def _u(n, v):
+    return v.to_bytes(n, "big")
+
+
+def _picture_data_units(rng, q, t, major, pic_num, dims, depths):
+    """[(parse code, payload bytes)] of one coded picture: one picture data unit (12.1) or its fragments (14.1 - 14.4)."""
+    slices = _slices(rng, q, t, dims, depths)
+    tp = _W()
+    _transform_parameters(tp, t, q["profile"], major)
+    if t["frag"] == 0:
+        return [(_PARSE_CODES[(q["profile"], "pic")], _u(4, pic_num) + tp.getvalue() + b"".join(slices))]
+    code = _PARSE_CODES[(q["profile"], "frag")]
+    tpb = tp.getvalue()
+    units = [(code, _u(4, pic_num) + _u(2, len(tpb)) + _u(2, 0) + tpb)]
+    i = 0
+    while i < len(slices):
+        k = t["frag"] if t["frag"] > 0 else rng.randint(1, min(len(slices) - i, 5))
+        part = slices[i:i + k]
+        body = b"".join(part)
+        units.append((code, _u(4, pic_num) + _u(2, len(body)) + _u(2, len(part)) + _u(2, i % t["sx"]) + _u(2, i // t["sx"]) + body))
+        i += len(part)
+    return units
+
+
+def _major_version(q):
+    """(11.2.2) the smallest version that has every feature used."""
+    v = 2 if q["profile"] == "hq" else 1
+    for t in q["pictures"]:
+        if t["frag"] != 0 or t["dh"] != 0 or t["wih"] != t["wi"]:
+            v = 3
+    return v
+
+
+def _build_stream(spec):
+    """bytes of the stream and, per coded picture in stream order, what the statement says about its output:
+    dict(pic_num, Y=(w, h), C=(w, h), ydepth, cdepth, after=offset)."""
+    rng = random.Random(spec["cseed"])
+    data = bytearray()
+    expected = []
+    for q in spec["sequences"]:
+        major = _major_version(q)
+        hdr = _sequence_header_bytes(q, major)
+        dims = _picture_dimensions(q["fw"], q["fh"], q["cdf"], q["pcm"])
+        sr = _PRESET_SIGNAL_RANGES[q["sr"]] if isinstance(q["sr"], int) else q["sr"]
+        depths = (_intlog2(sr[1] + 1), _intlog2(sr[3] + 1))
+        units = [(_PARSE_CODES["seq"], hdr, None)]
+        pn = q["pn0"]
+        for i, t in enumerate(q["pictures"]):
+            for extra in t["before"]:
+                if extra == "seq":
+                    units.append((_PARSE_CODES["seq"], hdr, None))
+                else:
+                    units.append((_PARSE_CODES[extra], bytes(rng.randrange(256) for _ in range(rng.choice((0, 1, 5, 14)))), None))
+            pus = _picture_data_units(rng, q, t, major, pn, dims, depths)
+            for j, (code, payload) in enumerate(pus):
+                units.append((code, payload, (len(expected), j == len(pus) - 1)))
+            expected.append({"pic_num": pn, "Y": [dims[0], dims[1]], "C": [dims[2], dims[3]], "ydepth": depths[0], "cdepth": depths[1]})
+            pn = (pn + 1) & 0xFFFFFFFF
+        for extra in q["trailing"]:
+            units.append((_PARSE_CODES[extra], bytes(rng.randrange(256) for _ in range(3)), None))
+        units.append((_PARSE_CODES["eos"], b"", None))
+        prev = 0
+        for k, (code, payload, mark) in enumerate(units):
+            size = 13 + len(payload)
+            nxt = 0 if code == _PARSE_CODES["eos"] else size
+            if mark is not None and q["zero_next_offsets"]:
+                nxt = 0  # (10.5.1) allowed for pictures and fragments
+            if mark is not None:
+                e = expected[mark[0]]
+                e.setdefault("starts", []).append(len(data) + 13)  # first payload byte of each of its data units
+            data += b"BBCD" + _u(1, code) + _u(4, nxt) + _u(4, prev) + payload
+            prev = size
+    # O: the call for picture k cannot come before the payload of its last data unit is read
+    for e in expected:
+        e["after"] = e["starts"][-1]
+        del e["starts"]
+    return bytes(data), expected
+
+
+# --------------------------------------------------------------------------------------------------------------------
+# the oracle
+# --------------------------------------------------------------------------------------------------------------------
+def _component_problems(a, w, h, depth, name):
+    """Clauses S and R for one component."""
+    if not isinstance(a, list) or len(a) != h or any((not isinstance(r, list)) or len(r) != w for r in a):
+        shape = None
+        if isinstance(a, list):
+            shape = [len(a), sorted(set(len(r) if isinstance(r, list) else -1 for r in a))]
+        return ["S: component %s must be %d wide and %d high; decoder gave [rows, row lengths] = %r" % (name, w, h, shape)]
+    top = (1 << depth) - 1
+    for y, r in enumerate(a):
+        for x, v in enumerate(r):
+            if type(v) is not int or v < 0 or v > top:
+                return ["R: component %s sample (x=%d, y=%d) is %r, not an int in [0, %d] (depth %d)" % (name, x, y, v, top, depth)]
+    return []
+
+
+def _decode_and_judge(data, expected):
+    """Runs the real decoder over the stream; returns (status, problems, stats).  status: 'ok' | 'rejected' | 'fail'."""
+    from vc2_conformance.pseudocode.state import State
+    from vc2_conformance import decoder
+
+    f = BytesIO(data)
+    problems = []
+    calls = [0]
+    stats = {"pictures": 0, "clipped": 0}
+
+    def cb(picture, video_parameters, picture_coding_mode):
+        k = calls[0]
+        calls[0] += 1
+        pos = f.tell()
+        if k >= len(expected):
+            problems.append("O: callback call %d but the stream holds only %d pictures" % (k + 1, len(expected)))
+            return
+        e = expected[k]
+        stats["pictures"] += 1
+        if not (e["after"] < pos):
+            problems.append("O: output %d happened at file position %d, before the payload of the last data unit of picture %d (offset %d) was touched" % (k, pos, k, e["after"]))
+        try:
+            n = picture["pic_num"]
+        except Exception:
+            n = None
+        if type(n) is not int or n != e["pic_num"]:
+            problems.append("N: output %d carries picture number %r, the stream codes %d" % (k, n, e["pic_num"]))
+        for name, (w, h), depth in (("Y", e["Y"], e["ydepth"]), ("C1", e["C"], e["cdepth"]), ("C2", e["C"], e["cdepth"])):
+            try:
+                a = picture[name]
+            except Exception:
+                a = None
+            p = _component_problems(a, w, h, depth, name)
+            if p:
+                problems.append("output %d (picture number %r): %s" % (k, n, p[0]))
+            elif any(v == 0 or v == (1 << depth) - 1 for r in a for v in r):
+                stats["clipped"] += 1
+
+    st = State(_output_picture_callback=cb)
+    try:
+        decoder.init_io(st, f)
+        decoder.parse_stream(st)
+    except decoder.ConformanceError as e:
+        return "rejected", ["%s: %s" % (type(e).__name__, str(e)[:200])], stats
+    except Exception as e:
+        import traceback
+
+        tb = traceback.extract_tb(e.__traceback__)
+        where = "%s:%d %s" % (tb[-1].filename.split("/")[-1], tb[-1].lineno, tb[-1].name) if tb else ""
+        problems.append("O: the decoder raised %s (%s) at %s after %d of %d outputs" % (type(e).__name__, str(e)[:120], where, calls[0], len(expected)))
+        return "fail", problems, stats
+    if calls[0] != len(expected):
+        problems.append("O: %d pictures output for a stream of %d picture data units / completed fragmented pictures" % (calls[0], len(expected)))
+    return ("fail" if problems else "ok"), problems, stats
+
+
+def _run_chunk(task):
+    start, specs = task
+    res = []
+    for j, spec in enumerate(specs):
+        t0 = time.process_time()
+        data, expected = _build_stream(spec)
+        status, problems, stats = _decode_and_judge(data, expected)
+        r = {"index": start + j, "family": spec["family"], "status": status, "problems": problems[:6], "nproblems": len(problems), "bytes": len(data),
+             "pictures": stats["pictures"], "clipped": stats["clipped"], "expected_pictures": len(expected), "seconds": time.process_time() - t0}
+        if status != "ok":
+            r["stream_hex"] = data.hex() if len(data) <= 6000 else None
+            r["expected"] = expected
+        res.append(r)
+    return res
+
+
+# --------------------------------------------------------------------------------------------------------------------
+# the domain (parent process; deterministic in seed and tier)
+# --------------------------------------------------------------------------------------------------------------------
+def _header_fields(rng):
+    return {
+        "redundant_cdf": rng.random() < 0.3, "redundant_sr": rng.random() < 0.3,
+        "scan": rng.choice((None, None, 0, 1)),
+        "frame_rate": rng.choice((None, None, (0, 25, 1), (0, 30000, 1001), (1,), (7,), (11,))),
+        "par": rng.choice((None, None, (0, 3, 2), (1,), (3,), (6,))),
+        "clean": rng.choice((None, None, "inner")),
+        "color_spec": rng.choice((None, None, (0, None, None, None), (0, 1, 2, 3), (0, None, 3, None), (1,), (4,))),
+    }
+
+
+def _signal_range(rng):
+    k = rng.randrange(10)
+    if k < 4:
+        return rng.choice((1, 2, 3, 4))
+    if k < 7:  # different luma / colour difference depths
+        yd, cd = rng.choice(((8, 10), (10, 8), (1, 2), (2, 1), (3, 12), (12, 7), (16, 8), (9, 16), (5, 6)))
+    else:
+        yd = cd = rng.choice((1, 2, 4, 7, 8, 9, 12, 16))
+    # an excursion whose depth is yd: anything in [2**(yd-1), 2**yd - 1]
+    ye = rng.choice(((1 << yd) - 1, max(1, 1 << (yd - 1)), rng.randint(max(1, 1 << (yd - 1)), (1 << yd) - 1)))
+    ce = rng.choice(((1 << cd) - 1, max(1, 1 << (cd - 1)), rng.randint(max(1, 1 << (cd - 1)), (1 << cd) - 1)))
+    return [rng.randrange(1 << yd), ye, rng.randrange(1 << cd), ce]
+
+
+def _transform(rng, shape, family, wavelets, matrices, version3, grid=None):
+    d, dh = shape
+    wi = rng.choice(wavelets)
+    wih = rng.choice(wavelets) if (version3 and rng.random() < 0.6) else wi
+    sx, sy = grid or rng.choice(D_GRIDS)
+    nq = 1 + dh + 3 * d
+    has_default = (wi, wih, d, dh) in matrices
+    qm = None if (has_default and rng.random() < 0.4) else [rng.choice((0, 0, 0, 1, 2, 4, 7)) for _ in range(nq)]
+    ns = sx * sy
+    if family[1] == "frag":
+        frag = rng.choice((1, 1, 2, 3, ns, -1, max(1, ns // 2)))
+        frag = min(frag, ns) if frag > 0 else frag
+    else:
+        frag = 0
+    qk = rng.randrange(10)
+    qindex = (0,) if qk < 5 else ((0, 1, 2, 3, 4, 5, 8) if qk < 7 else ((7, 12, 21, 40) if qk < 9 else (63, 100, 127)))
+    kinds = ("zero", "extreme", "boundary", "dc", "noise", "small", "extreme", "boundary", "one-over")
+    m = rng.choice(kinds)
+    modes = [m, m, m] if rng.random() < 0.6 else [rng.choice(kinds) for _ in range(3)]
+    return {"wi": wi, "wih": wih, "d": d, "dh": dh, "sx": sx, "sy": sy, "qm": qm, "frag": frag, "qindex": qindex, "modes": modes,
+            "cut": rng.choice((None, None, None, None, "short", "scaler")), "prefix": rng.choice((0, 0, 0, 1, 3)), "redundant_flags": rng.random() < 0.25,
+            "before": [], "scaler": 1, "sb_num": 1, "sb_den": 1}
+
+
+def _sequence(rng, shape, w, h, family, cdf, pcm, wavelets, matrices, grid, shapes):
+    """One sequence whose FIRST picture has the enumerated transform shape on components of base size w x h (the
+    colour difference components are w x h, luma is larger by the sampling factors; for 4:4:4 both are w x h)."""
+    fw = w * (2 if cdf >= 1 else 1)
+    fh = h * (2 if cdf == 2 else 1) * (2 if pcm == 1 else 1)
+    first = _transform(rng, shape, family, wavelets, matrices, True, grid)
+    # version 3 is only legal (11.2.2) if something needs it: decide from the first picture, the others follow
+    v3 = first["frag"] != 0 or first["dh"] != 0 or first["wih"] != first["wi"]
+    npics = rng.choice((1, 1, 2, 3)) * (2 if pcm == 1 else 1)
+    pics = [first]
+    for _ in range(npics - 1):
+        if rng.random() < 0.5:
+            t = dict(first)
+            t.update(modes=[rng.choice(("zero", "extreme", "boundary", "noise")) for _ in range(3)], before=[])
+        else:
+            other = rng.choice(shapes) if v3 else (rng.choice((0, 1, 2)), 0)
+            fam2 = family if not v3 or rng.random() < 0.7 else (family[0], rng.choice(("pic", "frag")))
+            t = _transform(rng, other, fam2, wavelets, matrices, v3)
+            if not v3:
+                t["wih"] = t["wi"]
+                if t["qm"] is None and (t["wi"], t["wih"], t["d"], t["dh"]) not in matrices:
+                    t["qm"] = [0] * (1 + t["dh"] + 3 * t["d"])
+        if rng.random() < 0.2:
+            t["before"] = [rng.choice(("pad", "aux", "seq"))] + ([rng.choice(("pad", "seq"))] if rng.random() < 0.3 else [])
+        pics.append(t)
+    if first["qm"] is None and (first["wi"], first["wih"], first["d"], first["dh"]) not in matrices:
+        first["qm"] = [0] * (1 + first["dh"] + 3 * first["d"])
+    if pcm == 1:
+        pn0 = rng.choice((0, 2, 0xFFFFFFFE, 2 * rng.randrange(1 << 31)))
+    else:
+        pn0 = rng.choice((0, 1, 7, 0xFFFFFFFF, 0xFFFFFFFE, rng.randrange(1 << 32)))
+    return {"profile": family[0], "base": 0, "fw": fw, "fh": fh, "cdf": cdf, "pcm": pcm, "sr": _signal_range(rng), "hdr": _header_fields(rng),
+            "pictures": pics, "pn0": pn0, "trailing": [rng.choice(("pad", "aux"))] if rng.random() < 0.1 else [], "zero_next_offsets": rng.random() < 0.2,
+            "base_size": [w, h], "shape": list(shape)}
+
+
+def _domain(tier, seed):
+    import vc2_data_tables as T
+
+    wavelets = sorted(int(x) for x in T.WaveletFilters)
+    matrices = set((int(a), int(b), c, d) for (a, b, c, d) in T.QUANTISATION_MATRICES)
+    seqs = {fam: [] for fam in D_FAMILIES}
+    n = 0
+    for rnd in range(D_ROUNDS[tier]):
+        for shape in D_SHAPES[tier]:
+            for w in D_WIDTHS[tier]:
+                for h in D_HEIGHTS[tier]:
+                    for fam in D_FAMILIES:
+                        rng = random.Random("c09/%d/%d/%d" % (seed, rnd, n))
+                        # sampling format, coding mode and slice grid rotate so that every shape meets every one of them
+                        cdf, pcm = (n // 4) % 3, (n // 12) % 2
+                        grid = D_GRIDS[(n // 24 + n // 4) % len(D_GRIDS)]
+                        if rnd:
+                            cdf, pcm, grid = rng.randrange(3), rng.randrange(2), rng.choice(D_GRIDS)
+                        seqs[fam].append(_sequence(rng, shape, w, h, fam, cdf, pcm, wavelets, matrices, grid, D_SHAPES[tier]))
+                        n += 1
+    specs = []
+    for fam in D_FAMILIES:
+        rng = random.Random("c09/streams/%d/%s%s" % (seed, fam[0], fam[1]))
+        lst = seqs[fam]
+        rng.shuffle(lst)
+        i = 0
+        while i < len(lst):
+            k = rng.choice((1, 1, 2, 3))
+            group = lst[i:i + k]
+            if k > 1 and rng.random() < 0.3:  # a sequence of the other profile in between
+                other = rng.choice([f for f in D_FAMILIES if f[0] != fam[0]])
+                group.insert(1, dict(rng.choice(seqs[other])))
+            specs.append({"family": "%s-%s" % fam, "sequences": group, "cseed": rng.randrange(1 << 40)})
+            i += k
+    # presets: a base video format without overrides (frame size, sampling format and signal range all implied)
+    rng = random.Random("c09/presets/%d" % seed)
+    for base in ((1,) if tier == "quick" else (1, 2, 1, 2)):
+        fam = rng.choice(D_FAMILIES)
+        q = _sequence(rng, rng.choice(((0, 1), (1, 1), (0, 2), (1, 0))), 1, 1, fam, 2, 0, wavelets, matrices, (2, 2), D_SHAPES[tier])
+        q.update(base=base, fw=_BASE_FORMATS[base][0], fh=_BASE_FORMATS[base][1], cdf=2, pcm=rng.randrange(2), sr=1)
+        q["pictures"] = q["pictures"][:1] * (2 if q["pcm"] else 1)
+        for t in q["pictures"]:
+            t["modes"] = [rng.choice(("zero", "small", "dc")) for _ in range(3)]
+        q["pn0"] = 0
+        specs.append({"family": "preset", "sequences": [q], "cseed": rng.randrange(1 << 40)})
+    return specs
+
+
+def _spec_size(spec):
+    return sum(q["fw"] * q["fh"] * len(q["pictures"]) for q in spec["sequences"])
+
+
+def check_domain(rep, tier, seed):
+    from pyvc import frontend, runner
+
+    frontend.ensure_repo_on_path()
+    import vc2_conformance.decoder  # noqa: F401  imported before forking: the workers share the tree under check
+
+    tier = tier if tier in D_ROUNDS else "thorough"
+    t0 = time.time()
+    specs = _domain(tier, seed)
+    order = sorted(range(len(specs)), key=lambda i: -_spec_size(specs[i]))  # largest first: better balance
+    tasks = []
+    for a in range(0, len(order), _CHUNK):
+        idx = order[a:a + _CHUNK]
+        tasks.append((idx, [specs[i] for i in idx]))
+    results = {}
+    ctx = multiprocessing.get_context("fork")
+    with ctx.Pool(WORKERS) as pool:
+        for idx, res in pool.imap_unordered(_run_indexed, tasks):
+            for i, r in zip(idx, res):
+                results[i] = r
+    wall = time.time() - t0
+
+    fams = {}
+    for i, spec in enumerate(specs):
+        r = results[i]
+        a = fams.setdefault(spec["family"], {"streams": 0, "ok": 0, "rejected": 0, "fail": 0, "pictures": 0, "clipped": 0, "sequences": 0, "seconds": 0.0,
+                                             "reject_kinds": {}, "asym_unaligned": 0, "fails": [], "shapes": set(), "formats": set(), "sample": None})
+        a["streams"] += 1
+        a[r["status"]] += 1
+        a["seconds"] += r["seconds"]
+        if r["status"] == "rejected":
+            k = r["problems"][0].split(":")[0]
+            a["reject_kinds"][k] = a["reject_kinds"].get(k, 0) + 1
+            continue
+        a["pictures"] += r["pictures"]
+        a["clipped"] += r["clipped"]
+        a["sequences"] += len(spec["sequences"])
+        for q in spec["sequences"]:
+            lw, lh, cw, ch = _picture_dimensions(q["fw"], q["fh"], q["cdf"], q["pcm"])
+            for t in q["pictures"]:
+                a["shapes"].add((t["d"], t["dh"]))
+                a["formats"].add((t["d"], t["dh"], q["cdf"], q["pcm"]))
+                if t["dh"] and (lw % (1 << (t["d"] + t["dh"])) or cw % (1 << (t["d"] + t["dh"]))):
+                    a["asym_unaligned"] += 1
+        if r["status"] == "fail":
+            a["fails"].append((r["bytes"], i))
+        elif a["sample"] is None and len(spec["sequences"]) > 1:
+            a["sample"] = {"stream": i, "bytes": r["bytes"], "pictures": r["pictures"],
+                           "sequences": [{k: q[k] for k in ("profile", "fw", "fh", "cdf", "pcm", "sr", "pn0")} for q in spec["sequences"]]}
+
+    for fam in sorted(fams):
+        a = fams[fam]
+        if 3 * a["rejected"] > a["streams"]:
+            raise runner.CheckerError("C09 stream domain, family %s: the validator rejected %d of %d generated streams (%r) - the generator and the tree under check "
+                                      "disagree about what a conformant stream is; nothing can be concluded" % (fam, a["rejected"], a["streams"], a["reject_kinds"]))
+        rep.add_bounded(
+            "C09 decoded pictures, family %s (independent stream writer -> real init_io/parse_stream -> clauses S, R, N, O on every callback call)" % fam,
+            ("streams of 1-3 sequences; per sequence: first picture = every (dwt_depth, dwt_depth_ho) in %s x component width in %s x height in %s (colour difference "
+             "size; luma larger by the sampling factor), 4:4:4 / 4:2:2 / 4:2:0 x frames / fields and slice grids %s rotating, %d round(s); seeded: 7x7 wavelet pairs, custom or preset "
+             "signal ranges (luma and colour difference depths 1..16, also different), custom / default quantisation matrices, qindex 0..127, coefficient contents "
+             "{zero, +-2^(depth-1) boundaries, DC only, noise, extreme up to +-2^31}, slice payloads cut short (dangling) or with slack, slice_size_scaler / slice_bytes fractions, "
+             "fragment sizes {1, 2, 3, n/2, n, varying}, 1-3 further pictures per sequence with other transform shapes, padding / auxiliary / repeated sequence header units, "
+             "picture numbers incl. wrap at 2^32 [%s tier]") % (D_SHAPES[tier], D_WIDTHS[tier], D_HEIGHTS[tier], sorted(set(D_GRIDS)), D_ROUNDS[tier], tier)
+            if fam != "preset" else "base video formats 1, 2 (176x120, 176x144, 4:2:0, 8 bit full range) without any override, frames and fields, one small transform [%s tier]" % tier,
+            a["streams"], False, distinct=a["pictures"], samples=[a["sample"]] if a["sample"] else [],
+            note="%d streams decoded: %d accepted and well-formed, %d failing, %d rejected by the validator (outside the domain) %s; %d sequences, %d output pictures judged, "
+                 "%d with a horizontal-only level on a width that is not a multiple of 2^(dwt_depth+dwt_depth_ho), %d components touching 0 or 2^depth-1, "
+                 "%d distinct (dwt_depth, dwt_depth_ho), %d distinct (shape, sampling, coding mode); %.0f CPU-s"
+                 % (a["streams"], a["ok"], a["fail"], a["rejected"], a["reject_kinds"] or "", a["sequences"], a["pictures"], a["asym_unaligned"], a["clipped"],
+                    len(a["shapes"]), len(a["formats"]), a["seconds"]))
+    rep.extra_coverage["c09_stream_domain"] = {"streams": len(specs), "pictures_judged": sum(a["pictures"] for a in fams.values()),
+                                               "rejected": sum(a["rejected"] for a in fams.values()), "wall_s": round(wall, 1)}
+
+    # ---- violations: smallest failing streams first, at most 2 per family and 5 in all
+    reported = 0
+    total_fail = sum(a["fail"] for a in fams.values())
+    for fam in sorted(fams):
+        for (nbytes, i) in sorted(fams[fam]["fails"])[:2]:
+            if reported >= 5:
+                break
+            reported += 1
+            r, spec = results[i], specs[i]
+            rep.violation("stream-domain-%s-%d" % (fam, i), {
+                "what": "C09: a picture output by the reference decoder is not well-formed (or not output exactly once, in order): " + r["problems"][0],
+                "inputs": {"stream_hex": r.get("stream_hex") or "regenerate: bounded.c09_picture._build_stream(spec)", "spec": spec, "seed": seed, "tier": tier, "stream_index": i},
+                "expected": {"per output, in order": r["expected"], "clauses": "S size per (11.6.2), R int in [0, 2^depth-1] per (11.6.3), N picture number as coded, O one output per picture in stream order"},
+                "observed": r["problems"],
+                "failing_streams_in_domain": total_fail,
+                "reproduce": "cd /verif && [VERIF_REPO=<tree>] .venv/bin/python -c \"from pyvc import frontend; frontend.ensure_repo_on_path(); import json, bounded.c09_picture as m; "
+                             "p = json.load(open('<this replay file>')); data, exp = m._build_stream(p['inputs']['spec']); print(m._decode_and_judge(data, exp))\""
+                             "  (or, without this module: feed bytes.fromhex(inputs.stream_hex) to vc2_conformance.decoder.init_io / parse_stream with an _output_picture_callback and look at the picture)",
+            })
+
+
+def _run_indexed(task):
+    idx, specs = task
+    return idx, _run_chunk((0, specs))
+
+
+REGISTER = {"C09": dict(extra=[check, check_domain])}
